@@ -74,6 +74,11 @@ Definition nonstruct_targets (it : item) : list nat :=
   match it with IMsg _ => [] | _ => item_targets it end.
 Definition nonstruct_edges (g : graph) : list (nat * nat) := edges_of (fun _ it => nonstruct_targets it) g.
 
+(* is there a by-value cycle made of union variants / typedefs only?  (decides the hypothesis of box_acyclic) *)
+Definition cyclic_b (E : list (nat * nat)) (nodes : list nat) : bool :=
+  existsb (fun a => existsb (fun c => reachb E c a) (succs E a)) nodes.
+Definition union_cycle_b (g : graph) : bool := cyclic_b (nonstruct_edges g) (map fst g).
+
 (* decision list for the correspondence: (owner, field index, boxed?) for every path-typed message field *)
 Fixpoint box_fields (g : graph) (owner : nat) (i : nat) (fs : list fty) : list (nat * nat * bool) :=
   match fs with
